@@ -106,6 +106,13 @@ CHECKS = {
         note="Trusted: TLC; numpy.fft as the definition of the DFT for sizes other than 1, 2, 4. Exact arithmetic only for those sizes.",
         ref="§3 C16",
     ),
+    "C17": dict(
+        level="model_checking",
+        technique="TLA+ spec LengthScale.tla (generator words Stretch/Scale/Roll acting on an observable of scaling degree (1, 0); admissible plane-wave scenarios with >= 4 cells per period) enumerated and checked by TLC; spec->code replay of every word and every wave through get_length_scale",
+        text="TLC enumerates every word of <=2 (thorough 3) generators over Stretch(2^j), Scale(c in {-2.5, 2^-33, 1024}), Roll and checks DegreeOne; every word is applied to 1-D, 2-D and 3-D periodic base fields and structure_factor_mean, structure_factor_maximum and droplet_detection (threshold='extrema', positive factors) must return 2^stretch times the base value: exactly for pure stretches with the moment method, to 1e-12 otherwise, within half a Fourier bin for the peak method. TLC enumerates every admissible plane wave on shapes 16..64 (1-D..3-D), integer mode vectors up to |n_a| <= 3 (5), spacings 2^-4..2^6 (2^-6..2^6): quick 936, thorough 16198; the peak method must return a finite value within half a Fourier bin of 2 pi |n/L| for amplitudes/offsets (1,0), (2e-3,250), (1e-7,-1), (40,3), the moment method the wavelength, droplet counting on stripes must be invariant under cyclic shifts; droplet counting on rendered emulsions (1-3 D, spacings 2^-3..2^3, affine intensities) must return (V/n)^(1/d).",
+        note="Trusted: TLC. Droplet counting is measured with an automatic threshold and positive factors (see assumptions). Found and repaired F9 (peak method NaN / not covariant).",
+        ref="§3 C17",
+    ),
     "C18": dict(
         level="model_checking",
         technique="TLA+ spec Threshold.tla (threshold rules, Otsu's between-class variance over bin centres with the set of acceptable outcomes, strict binarisation, runs of open and periodic rows, strict size filter, all in exact integer arithmetic) model-checked by TLC over every integer image of small rows; spec->code replay through threshold_otsu / locate_droplets vs locate_droplets_in_mask of the spec's masks; brute-force Otsu oracle on random fields",
